@@ -362,3 +362,6 @@ mod router;
 pub use router::{Match, Parameters, Router};
 
 mod state;
+
+#[cfg(feature = "verif")]
+pub mod verif;
